@@ -150,4 +150,24 @@ def one_shot(M):
                     return ("bad", f"compute_checksum raises {r2[1]} for a bytearray argument (start={st}, length={ln}): it accepts bytes only")
                 if not same_bv(r2[1], ref ^ BV.const(0xFFFF)):
                     return ("bad", f"for a bytearray and the window start={st}, length={ln} the result is not the complemented RFC 1662 fold over exactly data[start : start+length]")
+    # long windows on concrete octets (block-wise processing, chunked folds): compared with the bit-serial definition
+    from sa.abseval import AbsEval
+
+    def ref_fcs(bs):
+        fcs = INIT
+        for b in bs:
+            fcs ^= b
+            for _ in range(8):
+                fcs = (fcs >> 1) ^ POLY if fcs & 1 else fcs >> 1
+        return fcs ^ 0xFFFF
+    for ln in (255, 256, 257, 1024, 1025, 2047, 2049, 4100):
+        data = bytes((i * 37 + 11) % 256 for i in range(ln + 3))
+        A = AbsEval(M)
+        A.budget = max(getattr(A, "budget", 0), 5_000_000)
+        r = A.apply(fn, [data, 1, ln])
+        if r[0] in ("undecided", "branch"):
+            return ("undecided", f"compute_checksum outside the interpreted subset for a window of {ln} concrete octets: {r[1]!r}"[:200])
+        cells += 1
+        if r[0] != "value" or r[1] != ref_fcs(data[1:1 + ln]):
+            return ("bad", f"for a window of {ln} octets (start=1) the result is not the complemented RFC 1662 fold over data[start : start+length]" + (f" (raises {r[1]})" if r[0] == "raise" else ""))
     return ("ok", cells)
